@@ -1,5 +1,4 @@
 import TarsModel.Proofs.CallPathCall
-import TarsModel.Proofs.CallPathStale
 import TarsModel.Proofs.CallPathExample
 
 /-!
@@ -19,7 +18,7 @@ Property theorems only.  The model is `Model/Filter.lean` (filter selection and 
 implementation → `rsp2Byte` → `TarsRequest` → `ResponseUnpack` / `Recv` → `doInvoke`'s error
 mapping → the proxy's decoding and context copy-back) over the codec model of C02/C03
 (`encMembers` / `decMembers` / `encStruct` / `decStruct`).  Vocabulary: `Proofs/CallPathSpec.lean`
-(`CallOK`, `ImplOK`, `OutsFresh`, `replyPacket`, `copiedMaps`, `normRet/normOuts/normIns`,
+(`CallOK`, `ImplOK`, `replyPacket`, `copiedMaps`, `normRet/normOuts/normIns`,
 `arrives`, `PassReg`, `Transparent`) and `Proofs/Filter.lean` (`PassFlt`, `PassMw`, `PassSide`).
 
 What the theorems had to assume (each is an explicit hypothesis, see `CallOK` / `ImplOK`):
@@ -33,21 +32,22 @@ What the theorems had to assume (each is an explicit hypothesis, see `CallOK` / 
 * results are equal **up to C03's normal form** `normVar`: an optional float member of a nested
   struct that is Go-`==` to its default (e.g. −0.0) reads back as the default; nil and empty maps /
   slices are identified (on the server a nil request context arrives as an empty map);
-* **the caller's out variables hold zero values** (`OutsFresh`): the proxy decodes into the
-  caller's variables, and members without explicit default are not reset (D13) —
-  `C01_stale_out_counterexample`;
-* **maps passed in `opts` are non-nil** (D20) — `C01_nil_map_counterexample`.
+
+No hypothesis is needed any more about what the caller's out variables hold before the call
+(D13 fixed: `ResetDefault` resets every member; non-struct out parameters are read with
+`require = true` and overwritten), nor about nil `opts` maps (D20 fixed: a nil map is left alone;
+`C01_nil_map_counterexample` shows the as-found panic, `C01_nil_map_ignored` the current behaviour).
 -/
 namespace Tars
 open Consts CallPath Filter
 
-/-! ## The tree is the repaired variant at all three sites (regenerated constants) -/
+/-! ## The tree is the repaired variant at all four sites (regenerated constants) -/
 
-/-- the current tree has the three `fix:` commits (D3, D19a, D19b): the theorems below about the
+/-- the current tree has the four `fix:` commits (D3, D19a, D19b, D20): the theorems below about the
     `repaired` variants are about the current code.  Fails to build when a fix is reverted. -/
 theorem C01_current_tree_repaired :
     currentVariants.postFilter = .repaired ∧ currentVariants.emptyDesc = .repaired ∧
-    currentVariants.zeroCode = .repaired := by decide
+    currentVariants.zeroCode = .repaired ∧ currentVariants.nilMapGuard = .repaired := by decide
 
 /-! ## Filters -/
 
@@ -262,9 +262,9 @@ example : clientErr .repaired (serverErr .repaired (.plain (ascii "boom"))).1
 /-! ## Transparency -/
 
 /-- **C01_transparent** (with pass-through filters on both sides; TARS version).  For a
-    well-formed call (`CallOK`) of an interface function the server knows, fresh out variables,
-    non-nil `opts` maps, and an implementation result `out = impl (in values) ctx status` that is
-    well-typed (`ImplOK`) and nil-error:
+    well-formed call (`CallOK`) of an interface function the server knows — whatever the caller's
+    out variables hold, nil or non-nil `opts` maps — and an implementation result
+    `out = impl (in values) ctx status` that is well-typed (`ImplOK`) and nil-error:
 
     * the trace is: the client filters' `before` events, the server filters' `before` events, **one**
       run of the implementation **on exactly the in values, the request context and the request
@@ -278,7 +278,6 @@ theorem C01_transparent_filters (env : Env) (rk : String → Nat) (cfg : Cfg)
     (hc : PassReg DoRes.nil creg cb ca) (hs : PassReg none sreg sb sa)
     (hcall : CallOK env rk cfg f.name f.sig false args opts)
     (hfind : iface.find f.name = some f)
-    (hfresh : OutsFresh env f.sig args) (hnil : ∀ m ∈ opts, m ≠ none)
     (himpl : ImplOK .repaired env cfg (proxyRequest env cfg f.name f.sig false args opts) f.sig
       (implOut env f args opts))
     (hok : (implOut env f args opts).err = none) :
@@ -301,13 +300,14 @@ theorem C01_transparent_filters (env : Env) (rk : String → Nat) (cfg : Cfg)
             (implOut env f args opts) with
           cPacketType := (proxyRequest env cfg f.name f.sig false args opts).cPacketType } := by
     simp only [replyPacket, hok]
-  have hfin := proxyFinish_ok env rk hcall.envWF f.sig args opts
+  have hfin := proxyFinish_ok .repaired env rk hcall.envWF f.sig args opts
     (replyPacket .repaired env (proxyRequest env cfg f.name f.sig false args opts) f.sig
       (implOut env f args opts))
     (implOut env f args opts).ret (implOut env f args opts).outs
-    (by rw [hpk]; rfl) (himpl.vals hok) (himpl.shape hok) hcall.nparams hcall.tys hcall.retTy hfresh
+    (by rw [hpk]; rfl) (himpl.vals hok) (himpl.shape hok) hcall.nparams hcall.tys hcall.retTy
+    (WTm_in_out env f.sig.params 0 args hcall.argsWT).2
   rw [hfin, hpk]
-  simp only [dispatchRsp, clientErr_ok, copyBackAll_nonnil opts _ _ hnil]
+  simp only [dispatchRsp, clientErr_ok, copyBackAll_repaired]
 
 /-- **C01_transparent** (no filters registered): `call` returns exactly what the implementation
     produced, and the implementation ran once on exactly what the caller passed. -/
@@ -315,7 +315,6 @@ theorem C01_transparent (env : Env) (rk : String → Nat) (cfg : Cfg) (iface : I
     (args : List Val) (opts : List (Option StrMap))
     (hcall : CallOK env rk cfg f.name f.sig false args opts)
     (hfind : iface.find f.name = some f)
-    (hfresh : OutsFresh env f.sig args) (hnil : ∀ m ∈ opts, m ≠ none)
     (himpl : ImplOK .repaired env cfg (proxyRequest env cfg f.name f.sig false args opts) f.sig
       (implOut env f args opts))
     (hok : (implOut env f args opts).err = none) :
@@ -333,7 +332,7 @@ theorem C01_transparent (env : Env) (rk : String → Nat) (cfg : Cfg) (iface : I
   have h := C01_transparent_filters env rk cfg {} {} [] [] [] [] iface f args opts
     (PassReg.sides _ [] [] rfl rfl rfl rfl (fun _ h => by cases h) (fun _ h => by cases h))
     (PassReg.sides _ [] [] rfl rfl rfl rfl (fun _ h => by cases h) (fun _ h => by cases h))
-    hcall hfind hfresh hnil himpl hok
+    hcall hfind himpl hok
   simpa [call] using h
 
 /-- **C01_args_exact**: what the implementation observed — the event it leaves — is the function
@@ -351,7 +350,6 @@ theorem C01_transparent_exact (env : Env) (rk : String → Nat) (cfg : Cfg) (ifa
     (args : List Val) (opts : List (Option StrMap))
     (hcall : CallOK env rk cfg f.name f.sig false args opts)
     (hfind : iface.find f.name = some f)
-    (hfresh : OutsFresh env f.sig args) (hnil : ∀ m ∈ opts, m ≠ none)
     (hin : normIns env f.sig args = inVals f.sig.params args)
     (out : ImplOut)
     (hout : out = f.impl (inVals f.sig.params args) ((optsMaps opts).1.getD []) ((optsMaps opts).2.getD []))
@@ -363,14 +361,13 @@ theorem C01_transparent_exact (env : Env) (rk : String → Nat) (cfg : Cfg) (ifa
         (copiedMaps opts (out.rspCtx.getD []) (out.rspStatus.getD [])).1,
         (copiedMaps opts (out.rspCtx.getD []) (out.rspStatus.getD [])).2⟩ := by
   have e : implOut env f args opts = out := by rw [hout, implOut, hin]
-  rw [C01_transparent env rk cfg iface f args opts hcall hfind hfresh hnil (by rw [e]; exact himpl)
+  rw [C01_transparent env rk cfg iface f args opts hcall hfind (by rw [e]; exact himpl)
     (by rw [e]; exact hok)]
   simp only [e, hret, houts]
 
 /-- **C01_failure**: when the implementation returns an error `e`, the proxy returns `arrives e`
     (see `C01_error_map*`), the caller's out variables and maps are untouched, the return value is
-    the zero value; the implementation ran once on exactly what the caller passed.  (No
-    `OutsFresh`, no non-nil maps needed.) -/
+    the zero value; the implementation ran once on exactly what the caller passed.  -/
 theorem C01_failure (env : Env) (rk : String → Nat) (cfg : Cfg) (iface : Iface) (f : Func)
     (args : List Val) (opts : List (Option StrMap)) (e : GoErr)
     (hcall : CallOK env rk cfg f.name f.sig false args opts)
@@ -435,7 +432,6 @@ theorem C01_result_independent_of_request_id (env : Env) (rk : String → Nat) (
     (hcall : CallOK env rk cfg f.name f.sig false args opts)
     (hcall' : CallOK env rk { cfg with reqId := id' } f.name f.sig false args opts)
     (hfind : iface.find f.name = some f)
-    (hfresh : OutsFresh env f.sig args) (hnil : ∀ m ∈ opts, m ≠ none)
     (himpl : ImplOK .repaired env cfg (proxyRequest env cfg f.name f.sig false args opts) f.sig
       (implOut env f args opts))
     (himpl' : ImplOK .repaired env { cfg with reqId := id' }
@@ -444,27 +440,44 @@ theorem C01_result_independent_of_request_id (env : Env) (rk : String → Nat) (
     (hok : (implOut env f args opts).err = none) :
     (call env { cfg with reqId := id' } iface f.name f.sig false args opts).2
       = (call env cfg iface f.name f.sig false args opts).2 := by
-  rw [C01_transparent env rk cfg iface f args opts hcall hfind hfresh hnil himpl hok,
-    C01_transparent env rk _ iface f args opts hcall' hfind hfresh hnil himpl' hok]
+  rw [C01_transparent env rk cfg iface f args opts hcall hfind himpl hok,
+    C01_transparent env rk _ iface f args opts hcall' hfind himpl' hok]
 
-/-! ## Boundaries: nil maps (D20), reused out variables (D13) -/
+/-! ## nil `opts` maps (D20) -/
 
-/-- **C01_nil_map_boundary (D20).**  Everything as in `C01_transparent` except that the caller
-    passes a nil context map (`opts = [nil]`) and the implementation set a non-empty response
-    context: the generated proxy panics ("assignment to entry in nil map") after the call was
-    served.  Hence the hypothesis `∀ m ∈ opts, m ≠ none` of `C01_transparent`. -/
+/-- **C01_nil_map_ignored (current code).**  A nil map passed in `opts` is left alone: the call is
+    served and returns exactly as `C01_transparent` says, the nil map stays nil (the response
+    context / status cannot be handed back through it), a non-nil one receives its copy. -/
+theorem C01_nil_map_ignored (env : Env) (rk : String → Nat) (cfg : Cfg) (iface : Iface)
+    (f : Func) (args : List Val) (st : Option StrMap)
+    (hcall : CallOK env rk cfg f.name f.sig false args [none, st])
+    (hfind : iface.find f.name = some f)
+    (himpl : ImplOK .repaired env cfg (proxyRequest env cfg f.name f.sig false args [none, st]) f.sig
+      (implOut env f args [none, st]))
+    (hok : (implOut env f args [none, st]).err = none) :
+    (call env cfg iface f.name f.sig false args [none, st]).2 =
+      .returned none
+        ⟨normRet env f.sig (implOut env f args [none, st]).ret,
+         normOuts env f.sig (implOut env f args [none, st]).outs,
+         none, st.map fun _ => (implOut env f args [none, st]).rspStatus.getD []⟩ := by
+  rw [C01_transparent env rk cfg iface f args [none, st] hcall hfind himpl hok]
+  simp [copiedMaps]
+
+/-- **C01_nil_map_counterexample (D20, as found only).**  With the as-found copy-back
+    (`Variants.nilMapGuard = asFound`), everything else as in `C01_transparent`: the caller passes a
+    nil context map (`opts = [nil]`) and the implementation set a non-empty response context — the
+    generated proxy panics ("assignment to entry in nil map") after the call was served. -/
 theorem C01_nil_map_counterexample (env : Env) (rk : String → Nat) (cfg : Cfg) (iface : Iface)
     (f : Func) (args : List Val)
     (hcall : CallOK env rk cfg f.name f.sig false args [none])
-    (hfind : iface.find f.name = some f) (hfresh : OutsFresh env f.sig args)
+    (hfind : iface.find f.name = some f)
     (himpl : ImplOK .repaired env cfg (proxyRequest env cfg f.name f.sig false args [none]) f.sig
       (implOut env f args [none]))
     (hok : (implOut env f args [none]).err = none)
     (hctx : (implOut env f args [none]).rspCtx.getD [] ≠ []) :
-    (call env cfg iface f.name f.sig false args [none]).2
+    (callWith { nilMapGuard := .asFound } env cfg {} {} iface f.name f.sig false args [none]).2
       = .panicked "assignment to entry in nil map" := by
-  unfold call
-  rw [callWith_normal {} env rk cfg {} {} [] [] [] [] iface f args [none]
+  rw [callWith_normal { nilMapGuard := .asFound } env rk cfg {} {} [] [] [] [] iface f args [none]
     (transparent_empty_client _ _ _ _) (transparent_empty_server _ _ _ _ _) hcall hfind himpl]
   have hpk : replyPacket .repaired env (proxyRequest env cfg f.name f.sig false args [none]) f.sig
         (implOut env f args [none])
@@ -472,11 +485,13 @@ theorem C01_nil_map_counterexample (env : Env) (rk : String → Nat) (cfg : Cfg)
             (implOut env f args [none]) with
           cPacketType := (proxyRequest env cfg f.name f.sig false args [none]).cPacketType } := by
     simp only [replyPacket, hok]
-  have hfin := proxyFinish_ok env rk hcall.envWF f.sig args [none]
+  have hfin := proxyFinish_ok .asFound env rk hcall.envWF f.sig args [none]
     (replyPacket .repaired env (proxyRequest env cfg f.name f.sig false args [none]) f.sig
       (implOut env f args [none]))
     (implOut env f args [none]).ret (implOut env f args [none]).outs
-    (by rw [hpk]; rfl) (himpl.vals hok) (himpl.shape hok) hcall.nparams hcall.tys hcall.retTy hfresh
+    (by rw [hpk]; rfl) (himpl.vals hok) (himpl.shape hok) hcall.nparams hcall.tys hcall.retTy
+    (WTm_in_out env f.sig.params 0 args hcall.argsWT).2
+  simp only
   rw [hfin, hpk]
   have hne : ((implOut env f args [none]).rspCtx.getD []).isEmpty = false := by
     cases h : (implOut env f args [none]).rspCtx.getD [] with
@@ -484,19 +499,18 @@ theorem C01_nil_map_counterexample (env : Env) (rk : String → Nat) (cfg : Cfg)
     | cons _ _ => rfl
   simp [dispatchRsp, clientErr_ok', copyBackAll, copyBack, hne]
 
-/-- the other direction of the boundary: a nil map is harmless as long as the implementation sets
-    no (or an empty) response context: copy-back has nothing to assign -/
+/-- as found, a nil map was harmless only as long as the implementation set no (or an empty)
+    response context: copy-back then had nothing to assign -/
 theorem C01_nil_map_harmless (rctx rst : StrMap) (h : rctx = []) :
-    copyBackAll [none] rctx rst = .ok (none, none) := by
+    copyBackAll .asFound [none] rctx rst = .ok (none, none) := by
   subst h; rfl
 
-/-! ## The clause at full strength, and why only the partial forms above hold -/
+/-! ## The clause at full strength -/
 
-/-- `C01_transparent` without its two boundary hypotheses (`OutsFresh`: the caller's out variables
-    hold zero values; non-nil `opts` maps): every well-formed call returns what the implementation
-    produced.  This is what the property text asks for; it is **false** for the generated code
-    (`C01_transparent_full_refuted`, defects D13 / D20); `C01_transparent` is the partial form that
-    holds. -/
+/-- the transparency clause of the property at full strength: **every** well-formed call — whatever
+    the caller's out variables hold before, nil or non-nil `opts` maps — returns what the
+    implementation produced.  (Refuted for the as-found generator by D13 and D20; it holds for the
+    current tree: `C01_transparent_full_holds`.) -/
 def C01_transparent_full : Prop :=
   ∀ (env : Env) (rk : String → Nat) (cfg : Cfg) (iface : Iface) (f : Func) (args : List Val)
     (opts : List (Option StrMap)),
@@ -513,33 +527,17 @@ def C01_transparent_full : Prop :=
          (copiedMaps opts ((implOut env f args opts).rspCtx.getD [])
             ((implOut env f args opts).rspStatus.getD [])).2⟩
 
-/-- alias under the naming convention for partial results: `C01_transparent` proves
-    `C01_transparent_full` restricted to fresh out variables and non-nil maps -/
-theorem C01_transparent_partial (env : Env) (rk : String → Nat) (cfg : Cfg) (iface : Iface) (f : Func)
-    (args : List Val) (opts : List (Option StrMap))
-    (hcall : CallOK env rk cfg f.name f.sig false args opts)
-    (hfind : iface.find f.name = some f)
-    (hfresh : OutsFresh env f.sig args) (hnil : ∀ m ∈ opts, m ≠ none)
-    (himpl : ImplOK .repaired env cfg (proxyRequest env cfg f.name f.sig false args opts) f.sig
-      (implOut env f args opts))
-    (hok : (implOut env f args opts).err = none) :
-    (call env cfg iface f.name f.sig false args opts).2 =
-      .returned none
-        ⟨normRet env f.sig (implOut env f args opts).ret,
-         normOuts env f.sig (implOut env f args opts).outs,
-         (copiedMaps opts ((implOut env f args opts).rspCtx.getD [])
-            ((implOut env f args opts).rspStatus.getD [])).1,
-         (copiedMaps opts ((implOut env f args opts).rspCtx.getD [])
-            ((implOut env f args opts).rspStatus.getD [])).2⟩ := by
-  rw [C01_transparent env rk cfg iface f args opts hcall hfind hfresh hnil himpl hok]
+theorem C01_transparent_full_holds : C01_transparent_full := by
+  intro env rk cfg iface f args opts hcall hfind himpl hok
+  rw [C01_transparent env rk cfg iface f args opts hcall hfind himpl hok]
 
-/-! ## Non-vacuity, and the D13 witness at call level
+/-! ## Non-vacuity
 
     IDL: `struct S { 0 require int a; 1 optional string b; };`
     `interface I { long f(int x, out S s); void get(out S s); };` -/
 
 
-open C01Example CallPath.StaleEx in
+open C01Example in
 /-- the hypotheses of `C01_transparent` hold together for a non-trivial instance: an int in
     parameter needing four bytes, an out struct, a return value, a response context -/
 example : ∃ res, call env cfg iface F.name F.sig false [.int 70000, zeroS] [some []] = res ∧
@@ -559,13 +557,13 @@ example : ∃ res, call env cfg iface F.name F.sig false [.int 70000, zeroS] [so
     · exact ⟨by decide, by simp, by decide⟩
     · decide +kernel
   refine ⟨_, rfl, ?_⟩
-  rw [C01_transparent env rk cfg iface F [.int 70000, zeroS] [some []] hcall find_F fresh_F
-    (by simp) himpl (by rw [hout])]
+  rw [C01_transparent env rk cfg iface F [.int 70000, zeroS] [some []] hcall find_F himpl
+    (by rw [hout])]
   simp only [hout]
   simp [normRet, normOuts, F, sigF, outFields, outFieldsFrom, argField, normMembers, normVar,
     find_S, sFields, copiedMaps]
 
-open C01Example CallPath.StaleEx in
+open C01Example in
 /-- … and of `C01_failure`: `x = 13` makes the implementation fail with `tars.Errorf(77, "boom")`,
     which is exactly what the caller gets -/
 example : (call env cfg iface F.name F.sig false [.int 13, zeroS] [some []]).2
@@ -584,11 +582,15 @@ example : (call env cfg iface F.name F.sig false [.int 13, zeroS] [some []]).2
   rw [C01_failure env rk cfg iface F [.int 13, zeroS] [some []] _ hcall find_F himpl (by rw [hout])]
   rw [show arrives (GoErr.tars 77 (ascii "boom")) = .tars 77 (ascii "boom") from by decide]
 
-open C01Example CallPath.StaleEx in
-/-- … and of `C01_nil_map_counterexample`: the same call with a nil context map panics in the proxy,
-    because `f` sets the response context `{"k": "v"}` -/
-example : (call env cfg iface F.name F.sig false [.int 70000, zeroS] [none]).2
-    = .panicked "assignment to entry in nil map" := by
+open C01Example in
+/-- … and of `C01_nil_map_counterexample` / the current behaviour: the same call with a nil context
+    map panicked in the as-found proxy (because `f` sets the response context `{"k": "v"}`); the
+    current proxy returns normally and leaves the nil map alone -/
+example :
+    (callWith { nilMapGuard := .asFound } env cfg {} {} iface F.name F.sig false [.int 70000, zeroS] [none]).2
+      = .panicked "assignment to entry in nil map" ∧
+    (call env cfg iface F.name F.sig false [.int 70000, zeroS] [none]).2
+      = .returned none ⟨some (.int 70001), [.struct [.int 5, .str []]], none, none⟩ := by
   have hcall := callOK_F false 70000 (by decide) zeroS wt_zeroS none rfl (by decide +kernel)
   have hout : implOut env F [.int 70000, zeroS] [none]
       = ⟨some (.int 70001), [.struct [.int 5, .str []]], some [(ascii "k", ascii "v")], none, none⟩ := by
@@ -602,10 +604,14 @@ example : (call env cfg iface F.name F.sig false [.int 70000, zeroS] [none]).2
         sFields]
     · exact ⟨by decide, by simp, by decide⟩
     · decide +kernel
-  exact C01_nil_map_counterexample env rk cfg iface F [.int 70000, zeroS] hcall find_F fresh_F himpl
-    (by rw [hout]) (by rw [hout]; decide)
+  refine ⟨C01_nil_map_counterexample env rk cfg iface F [.int 70000, zeroS] hcall find_F himpl
+    (by rw [hout]) (by rw [hout]; decide), ?_⟩
+  rw [C01_transparent env rk cfg iface F [.int 70000, zeroS] [none] hcall find_F himpl (by rw [hout])]
+  simp only [hout]
+  simp [normRet, normOuts, F, sigF, outFields, outFieldsFrom, argField, normMembers, normVar,
+    find_S, sFields, copiedMaps]
 
-open C01Example CallPath.StaleEx in
+open C01Example in
 /-- … and of `C01_oneway` -/
 example : ∃ _ : CallOK env rk cfg F.name F.sig true [.int 70000, zeroS] [some []],
     call env cfg iface F.name F.sig true [.int 70000, zeroS] [some []]
@@ -615,56 +621,14 @@ example : ∃ _ : CallOK env rk cfg F.name F.sig true [.int 70000, zeroS] [some 
     callOK_F true 70000 (by decide) zeroS wt_zeroS (some []) rfl (by decide +kernel)
   exact ⟨hc, C01_oneway env rk cfg iface F _ _ hc find_F⟩
 
-open C01Example CallPath.StaleEx in
-/-- **C01_stale_out_counterexample (D13 at call level).**  `void get(out S s)` with
-    `struct S { 0 require int a; 1 optional string b; }`: the server sets `s = {a: 5, b: ""}`.
-    Everything is as `C01_transparent` demands except `OutsFresh`: the caller's variable holds
-    `{a: 1, b: "old"}`.  After the call it holds `{5, "old"}`, not the `{5, ""}` the implementation
-    produced (with a fresh variable it does: second part): the optional member at its default is
-    not transmitted, and the generated `ResetDefault` does not reset a member without an explicit
-    default. -/
-theorem C01_stale_out_counterexample :
-    (implOut env G [oldS] []).outs = [.struct [.int 5, .str []]] ∧
-    (call env cfg iface G.name G.sig false [oldS] []).2
-      = .returned none ⟨none, [.struct [.int 5, .str oldStr]], none, none⟩ ∧
-    (call env cfg iface G.name G.sig false [zeroS] []).2
-      = .returned none ⟨none, [.struct [.int 5, .str []]], none, none⟩ := by
-  have key : ∀ (s : Val) (hs : WT env (.struct "S") s)
-      (hfit : ((requestPack (proxyRequest env cfg G.name G.sig false [s] [])).length : Int) ≤ cfg.maxLen)
-      (hfit2 : ((rsp2Byte (replyPacket .repaired env (proxyRequest env cfg G.name G.sig false [s] [])
-        G.sig (implOut env G [s] []))).length : Int) ≤ cfg.maxLen),
-      (call env cfg iface G.name G.sig false [s] []).2
-        = proxyFinish env sigG [s] [] (replyPacket .repaired env
-            (proxyRequest env cfg G.name G.sig false [s] []) G.sig (implOut env G [s] [])) := by
-    intro s hs hfit hfit2
-    have hcall := callOK_G s hs hfit
-    have himpl : ImplOK .repaired env cfg (proxyRequest env cfg G.name G.sig false [s] []) G.sig
-        (implOut env G [s] []) := by
-      refine ⟨fun _ => rfl, fun _ => ?_, mapOK_nil, mapOK_nil, (fun c m h => by cases h),
-        (fun e h => by cases h), hfit2⟩
-      simp only [implOut, G, implG, sigG, rspFields, retFields, outFields, outFieldsFrom, argField,
-        Option.toList_none, List.nil_append, WTm, and_true, if_true]
-      exact wt_newS
-    unfold call
-    rw [callWith_normal {} env rk cfg {} {} [] [] [] [] iface G [s] []
-      (transparent_empty_client _ _ _ _) (transparent_empty_server _ _ _ _ _) hcall find_G himpl]
-    have : (replyPacket .repaired env (proxyRequest env cfg G.name G.sig false [s] []) G.sig
-        (implOut env G [s] [])).iRet = (cpDispatchRet : Nat) ∧
-        (replyPacket .repaired env (proxyRequest env cfg G.name G.sig false [s] []) G.sig
-        (implOut env G [s] [])).sResultDesc = [] := ⟨rfl, rfl⟩
-    rw [this.1, this.2, clientErr_ok]
-    rfl
-  refine ⟨rfl, ?_, ?_⟩
-  · rw [key oldS wt_oldS (by decide +kernel) (by decide +kernel)]
-    exact stale_out_reused _ rfl
-  · rw [key zeroS wt_zeroS (by decide +kernel) (by decide +kernel)]
-    exact stale_out_fresh _ rfl
-
-open C01Example CallPath.StaleEx in
-/-- the full-strength clause is false for the generated code: the D13 witness is a well-formed
-    call (`CallOK`, `ImplOK`, nil error) whose result differs from what the implementation produced -/
-theorem C01_transparent_full_refuted : ¬ C01_transparent_full := by
-  intro hfull
+open C01Example in
+/-- … and with a **reused out variable** (the D13 situation at call level): `void get(out S s)` with
+    `struct S { 0 require int a; 1 optional string b; }`, the server sets `s = {a: 5, b: ""}`, the
+    caller's variable holds `{a: 1, b: "old"}` before the call.  After the call it holds `{5, ""}`:
+    nothing stale survives (as found, `b` kept "old": `ResetDefault` did not reset a member without
+    an explicit default, and `b` at its default is not transmitted). -/
+example : (call env cfg iface G.name G.sig false [oldS] []).2
+    = .returned none ⟨none, [.struct [.int 5, .str []]], none, none⟩ := by
   have hcall := callOK_G oldS wt_oldS (by decide +kernel)
   have himpl : ImplOK .repaired env cfg (proxyRequest env cfg G.name G.sig false [oldS] []) G.sig
       (implOut env G [oldS] []) := by
@@ -673,12 +637,8 @@ theorem C01_transparent_full_refuted : ¬ C01_transparent_full := by
     simp only [implOut, G, implG, sigG, rspFields, retFields, outFields, outFieldsFrom, argField,
       Option.toList_none, List.nil_append, WTm, and_true, if_true]
     exact wt_newS
-  have h := hfull env rk cfg iface G [oldS] [] hcall find_G himpl rfl
-  rw [C01_stale_out_counterexample.2.1] at h
-  have hn : normOuts env G.sig (implOut env G [oldS] []).outs = [.struct [.int 5, .str []]] := by
-    simp [normOuts, implOut, G, implG, sigG, outFields, outFieldsFrom, argField, normMembers, normVar,
-      newS, find_S, sFields]
-  rw [hn] at h
-  simp [oldStr] at h
+  rw [C01_transparent env rk cfg iface G [oldS] [] hcall find_G himpl rfl]
+  simp [normRet, normOuts, implOut, G, implG, sigG, outFields, outFieldsFrom, argField, normMembers,
+    normVar, newS, find_S, sFields, copiedMaps, optsMaps]
 
 end Tars
